@@ -330,6 +330,17 @@ func (vm *VM) fmtValue(verb byte, v Value) Value {
 			return s
 		}
 	}
+	if verb == 'd' {
+		// big integers implement fmt.Formatter: %d renders the decimal value
+		if p, ok := ifc.V.(*Value); ok && p != nil {
+			if b, isBig := (*p).(BigVal); isBig {
+				return mkStr([]Atom{{Kind: aDec, T: b.T}})
+			}
+		}
+		if b, isBig := ifc.V.(BigVal); isBig {
+			return mkStr([]Atom{{Kind: aDec, T: b.T}})
+		}
+	}
 	switch x := ifc.V.(type) {
 	case string:
 		if verb == 'd' {
